@@ -1,5 +1,7 @@
 // variant: tsan
-// C14 (phase 2 of 2: data races) — "... or concurrently on other threads, changes nothing and causes no data race".
+// phase: 1
+// chain: C14V
+// C14 (phase 2 of 3: data races) — "... or concurrently on other threads, changes nothing and causes no data race".
 // The same multi-task plans as phase 1 (VGM dumper excluded: it writes through the harness's in-memory file
 // system), executed on real threads in the ThreadSanitizer build. Exactly one thread runs at a time (baton),
 // so every run is serial and replayable, but the baton is invisible to TSan: calls of different tasks are
